@@ -38,9 +38,10 @@ def kebab(ident):
 
 
 class Field:
-    def __init__(self, ident, ty, kind="pos", optional=False, short=None, long=None, default=None):
+    def __init__(self, ident, ty, kind="pos", optional=False, short=None, long=None, default=None, value_name=None):
         self.ident, self.ty, self.kind = ident, ty, kind
         self.optional, self.short, self.long, self.default = optional, short, long, default
+        self.value_name = value_name
 
     def rust_ty(self):
         t = {"str": "&'a str"}.get(self.ty, self.ty)
@@ -68,10 +69,12 @@ class Field:
             parts.append(f'long = "{self.long}"')
         if self.default is not None:
             parts.append(f'default_value = "{self.default}"')
+        if self.value_name is not None:
+            parts.append(f'value_name = "{self.value_name}"')
         return f"#[arg({', '.join(parts)})]\n        " if parts else ""
 
     def good_value(self):
-        return {"u8": "7", "i32": "-12", "bool": "true", "str": "abc", "char": "x", "f32": "1.5",
+        return {"u8": "7", "i32": "12", "bool": "true", "str": "abc", "char": "x", "f32": "1.5",
                 "u16": "300"}[self.ty]
 
     def bad_value(self):
@@ -147,7 +150,8 @@ def emit_enum(e, enums, out):
 
 
 def cmd_lines(c, enums, depth=0):
-    """Lines (without leading path) that exercise command c"""
+    """Lines (without leading path) that exercise command c, as (line, valid) pairs.
+    valid=True: by construction of the declaration the line is a complete, correct invocation."""
     name = c.name()
     q = '"' + name + '"' if " " in name else name
     lines = []
@@ -160,6 +164,9 @@ def cmd_lines(c, enums, depth=0):
             return f"--{f.long_name()} {val}"
         return f"-{f.short_char()} {val}"
 
+    def shortstr(f, val):
+        return f"-{f.short_char()} {val}"
+
     req = " ".join([optstr(f, f.good_value()) for f in opts if f.required()] +
                    [f.good_value() for f in pos if f.required()])
     full = " ".join([optstr(f, f.good_value()) for f in opts] +
@@ -168,43 +175,50 @@ def cmd_lines(c, enums, depth=0):
     sub = enums[c.sub] if c.sub else (enums[c.tuple_sub] if c.tuple_sub else None)
     base_ok = (q + " " + req).strip()
     if sub is None:
-        lines.append(base_ok)
+        lines.append((base_ok, True))
         if full != req:
-            lines.append((q + " " + full).strip())
+            lines.append(((q + " " + full).strip(), True))
+        # options given through their short names (a user's own -h is only an option when help is compiled out,
+        # the oracle knows that such a line is a help request otherwise)
+        sh = [f for f in opts if f.short_char()]
+        if sh:
+            lines.append(((q + " " + " ".join([shortstr(f, f.good_value()) if f.short_char() else optstr(f, f.good_value()) for f in opts if f.required() or f.short_char()] +
+                                               [f.good_value() for f in pos if f.required()])).strip(), True))
         if any(f.required() for f in c.fields):
-            lines.append(q)  # missing required argument
-        lines.append(base_ok + " extra1 extra2")  # unexpected argument (or fills optionals)
-        lines.append(base_ok + " --zzz")  # unexpected long option
-        lines.append(base_ok + " -Z")  # unexpected short option
+            lines.append((q, False))  # missing required argument
+        lines.append((base_ok + " extra1 extra2", False))  # unexpected argument (or fills optionals)
+        lines.append((base_ok + " --zzz", False))  # unexpected long option
+        lines.append((base_ok + " -Z", False))  # unexpected short option
         for f in pos + opts:
             if f.bad_value():
                 if f.kind == "pos":
                     vals = [g.bad_value() if g is f else g.good_value() for g in pos if g.required() or g is f]
-                    lines.append((q + " " + " ".join([optstr(g, g.good_value()) for g in opts if g.required()] + vals)).strip())
+                    lines.append(((q + " " + " ".join([optstr(g, g.good_value()) for g in opts if g.required()] + vals)).strip(), False))
                 else:
-                    lines.append((q + " " + optstr(f, f.bad_value()) + " " +
-                                  " ".join(g.good_value() for g in pos if g.required())).strip())
+                    lines.append(((q + " " + optstr(f, f.bad_value()) + " " +
+                                   " ".join(g.good_value() for g in pos if g.required())).strip(), False))
                 break
         shorts = [f.short_char() for f in flags if f.short_char()]
         if len(shorts) >= 1:
-            lines.append((q + " -" + "".join(shorts) + " " + req).strip())
+            lines.append(((q + " -" + "".join(shorts) + " " + req).strip(), True))
         if pos and pos[0].ty == "str":
-            lines.append(q + ' "two words"')
-            lines.append(q + ' -- -x')
+            lines.append((q + ' "two words"', False))
+            lines.append((q + ' -- -x', False))
     else:
-        lines.append(base_ok)  # missing sub-command
+        lines.append((base_ok, False))  # missing sub-command
         if depth < 2:
             for sc in sub.cmds[:3]:
-                for l in cmd_lines(sc, enums, depth + 1)[:4]:
-                    lines.append((base_ok + " " + l).strip())
-        lines.append(base_ok + " nosuch")
-    lines.append(q + " --help")
-    lines.append(q + " -h")
+                for (l, v) in cmd_lines(sc, enums, depth + 1)[:4]:
+                    lines.append(((base_ok + " " + l).strip(), v))
+        lines.append((base_ok + " nosuch", False))
+    lines.append((q + " --help", False))
+    lines.append((q + " -h", False))
     return lines
 
 
 def set_lines(top, enums, groups):
-    lines = ["help", "nosuch 1 2", "help nosuch"]
+    """returns (lines, valid_lines)"""
+    lines = [("help", False), ("nosuch 1 2", False), ("help nosuch", False)]
     members = []
     if isinstance(top, Group):
         for (_, ty, hidden) in top.members:
@@ -215,19 +229,23 @@ def set_lines(top, enums, groups):
     for (e, hidden) in members:
         for c in e.cmds:
             cl = cmd_lines(c, enums)
-            lines.extend(cl[:10] if len(e.cmds) <= 4 else cl[:4])
-            lines.append("help " + c.name())
+            lines.extend(cl[:11] if len(e.cmds) <= 4 else cl[:5])
+            lines.append(("help " + c.name(), False))
             sub = enums[c.sub] if c.sub else (enums[c.tuple_sub] if c.tuple_sub else None)
             if sub is not None:
                 for sc in sub.cmds[:2]:
-                    lines.append("help " + c.name() + " " + sc.name())
+                    lines.append(("help " + c.name() + " " + sc.name(), False))
     # de-duplicate, keep order
-    seen, out = set(), []
-    for l in lines:
+    seen, out, valid = set(), [], []
+    for (l, v) in lines:
         if l not in seen and "\\" not in l:
             seen.add(l)
             out.append(l)
-    return out
+            if v:
+                valid.append(l)
+    # a name claimed by two members of a group is answered by the first: only keep a valid line if
+    # no EARLIER member also has a command of that name with a different shape (none in these families)
+    return out, valid
 
 
 def visible_names(top, enums):
@@ -347,6 +365,7 @@ def build_family(seed):
         Cmd("Nisshi", name="日誌"),
         Cmd("Prigod", name="пригод"),
         Cmd("Emoji", name="😀😀x"),
+        Cmd("Pokazat", name="показать-конфигурацию-сетевых-интерфейсов", doc="Длинное имя"),
     ])))
     # 6 single command
     tops.append(add(Enum("S6", [Cmd("Reboot", [Field("force", "bool", kind="flag", short=True, long=True)], doc="Reboot device")])))
@@ -423,6 +442,12 @@ def build_family(seed):
     add(Enum("S20C", [Cmd("Count", [Field("n", "u8", optional=True)]), Cmd("Co")], title="Counting"))
     add(Enum("S20D", [Cmd("Quit", doc="Leave")]))
     tops.append(Group("S20", [("A", "S20A", False), ("B", "S20B", True), ("C", "S20C", False), ("D", "S20D", False)]))
+    # one name a full prefix of another, the shorter in an EARLIER group, the longer in a later one; hidden relatives
+    add(Enum("S23A", [Cmd("Get", doc="Get it"), Cmd("Put", [Field("v", "u8")])]))
+    add(Enum("S23B", [Cmd("GetLed", [Field("led", "u8")]), Cmd("PutAll"), Cmd("Getx")], title="Second"))
+    add(Enum("S23C", [Cmd("GetSecret"), Cmd("Reset")], title="Hidden"))
+    add(Enum("S23D", [Cmd("Reboot"), Cmd("Ge")]))
+    tops.append(Group("S23", [("A", "S23A", False), ("B", "S23B", False), ("C", "S23C", True), ("D", "S23D", False)]))
     # systematic prefix chains and many commands
     tops.append(add(Enum("S21", [Cmd(f"P{i}", name=n, doc=f"chain {n}") for i, n in enumerate(
         ["a", "ab", "abc", "abcd", "abcde", "b-x", "b-y", "b-xy", "c", "led1", "led10", "led2", "zz-top", "zz", "z"])])))
@@ -432,6 +457,17 @@ def build_family(seed):
         Cmd("ConfigureNetworkRoute", [Field("dest", "str"), Field("metric", "u8", optional=True)]),
         Cmd("ConfigurationDump"),
         Cmd("Con"),
+        Cmd("ConfigureNetworkInterfaceAddressFamilyPreferenceOrder", doc="A very long command name"),
+    ])))
+    # explicit value names, a user's own -h option, options with very long rendered names
+    tops.append(add(Enum("S24", [
+        Cmd("Copy", [Field("src", "str", value_name="FROM"), Field("dst", "str", value_name="TO")], doc="Copy things"),
+        Cmd("Ping", [Field("host", "str", kind="opt", short=True, long=True, value_name="ADDRESS"),
+                     Field("count", "u8", kind="opt", optional=True, short=True, long=True),
+                     Field("verbose", "bool", kind="flag", short=True, long=True)], doc="Ping a host"),
+        Cmd("Key", [Field("key", "u8", kind="opt", long=True, value_name="SLOT"), Field("hex", "bool", kind="flag", short=True, long=True)]),
+        Cmd("Tls", [Field("certificate_bundle_path_for_tls", "str", kind="opt", optional=True, long=True),
+                    Field("x", "u8", optional=True)], doc="TLS setup"),
     ])))
     # 13..: random over a tiny syllable alphabet (different for every family seed)
     n_random = 5
@@ -519,16 +555,20 @@ def main():
         out.append("")
 
     out.append("pub static SETS: &[SetMeta] = &[")
-    out.append('    SetMeta { ident: "Raw", names: &[], grouped: false, lines: &["raw 1 2", "x", "cmd \\"a b\\" -f --long -- -v", "help", "help x", "x --help", "a -h b"] },')
+    out.append('    SetMeta { ident: "Raw", names: &[], grouped: false, lines: &["raw 1 2", "x", "cmd \\"a b\\" -f --long -- -v", "help", "help x", "x --help", "a -h b"], valid_lines: &[] },')
     for t in tops:
         names = visible_names(t, enums)
-        lines = set_lines(t, enums, groups)
+        lines, valid = set_lines(t, enums, groups)
         out.append("    SetMeta {")
         out.append(f'        ident: "{t.ident}",')
         out.append("        names: &[" + ", ".join(rs_str(n) for n in names) + "],")
         out.append(f"        grouped: {'true' if isinstance(t, Group) else 'false'},")
         out.append("        lines: &[")
         for l in lines:
+            out.append("            " + rs_str(l) + ",")
+        out.append("        ],")
+        out.append("        valid_lines: &[")
+        for l in valid:
             out.append("            " + rs_str(l) + ",")
         out.append("        ],")
         out.append("    },")
